@@ -17,6 +17,7 @@ import Dippy.Model.ProcState
 import Dippy.Model.Statusline
 import Dippy.Model.Sql
 import Dippy.Model.PyCli
+import Dippy.Lemmas.RoundTrip
 
 open Lean Dippy
 
@@ -546,6 +547,17 @@ def handle (j : Json) : R Json := do
     | .ok p m => return Json.mkObj [("pattern", p), ("message", optStrJson m)]
     | .error => return Json.str "ValueError"
   | "unescape" => return Json.str (String.ofList (unescapeL (← str j "s").toList))
+  | "renderline" =>
+    -- the writer of the C11 round-trip theorems, its well-formedness predicate, and the model's reading of the line
+    let d ← str j "d"
+    let ts := (← (← arr j "tokens").toList.mapM fun t => t.getStr?).map String.toList
+    let ex := (j.getObjValD "exact") == Json.bool true
+    let m : Option (List Char) := match j.getObjValD "msg" with
+      | .str s => some s.toList
+      | _ => none
+    let line := RT.renderLine d ts ex m
+    return Json.mkObj [("line", line), ("wf", RT.wfPatB ts ex m),
+      ("parsed", configJson (parseConfig (toParseEnv (j.getObjValD "penv")) line))]
   | "stripanchor" =>
     let (p, e) := stripExactAnchor (← str j "s")
     return Json.mkObj [("pattern", p), ("exact", e)]
